@@ -377,6 +377,15 @@ namespace b
    {};
    struct k_opt : opt< alpha, alpha >
    {};
+   // multi-byte units that the limit can split: UTF-8 code points and CR LF
+   struct k_utf8 : plus< utf8::range< 0x20, 0x10ffff > >
+   {};
+   struct k_utf8_one : seq< opt< one< 'a' > >, utf8::one< 0x20ac > >
+   {};
+   struct k_eol : seq< star< one< 'a' > >, eol >
+   {};
+   struct k_until_eolf : until< eolf >
+   {};
 
    struct span
    {
@@ -408,6 +417,10 @@ namespace b
    GUARDED( k_until );
    GUARDED( k_eof );
    GUARDED( k_opt );
+   GUARDED( k_utf8 );
+   GUARDED( k_utf8_one );
+   GUARDED( k_eol );
+   GUARDED( k_until_eolf );
 
    struct record
    {
@@ -471,7 +484,7 @@ struct bres
    bool end_restored = true;
 };
 
-template< typename G, template< typename... > class Act, template< typename... > class Ctl = p::normal >
+template< typename G, template< typename... > class Act, template< typename... > class Ctl = p::normal, typename Eol = p::eol::lf_crlf >
 static bres run_bytes( const std::string& s )
 {
    bres r;
@@ -483,7 +496,7 @@ static bres run_bytes( const std::string& s )
    m.reset();
    m.base = buf;
    {
-      p::memory_input< p::tracking_mode::eager, p::eol::lf_crlf, const char* > in( buf, buf + s.size(), "bytes" );
+      p::memory_input< p::tracking_mode::eager, Eol, const char* > in( buf, buf + s.size(), "bytes" );
       try {
          r.k = p::parse< G, Act, Ctl >( in ) ? 1 : 0;
       }
@@ -516,7 +529,7 @@ struct hiding_control : p::normal< Rule >
    static constexpr bool enable = !b::is_guarded< Rule >::value && p::normal< Rule >::enable;
 };
 
-template< typename K, std::size_t N, template< typename... > class Ctl = p::normal >
+template< typename K, std::size_t N, template< typename... > class Ctl = p::normal, typename Eol = p::eol::lf_crlf >
 static void check_bytes_case( const char* kind, const std::string& s )
 {
    const std::size_t start = s.find_first_not_of( '#' ) == std::string::npos ? s.size() : s.find_first_not_of( '#' );
@@ -524,9 +537,9 @@ static void check_bytes_case( const char* kind, const std::string& s )
    const std::string head = std::string( "limit_bytes<" ) + std::to_string( N ) + "> around " + kind + " starting at offset " + std::to_string( start ) + " of '" + vf::show( s ) + "': ";
    // reference: the guarded rule alone, unguarded, on the input truncated at start+N
    const std::size_t cut = std::min( s.size(), start + N );
-   const bres t = run_bytes< b::only< K >, b::plain::act >( s.substr( 0, cut ) );
+   const bres t = run_bytes< b::only< K >, b::plain::act, p::normal, Eol >( s.substr( 0, cut ) );
    R.eval();
-   const bres g = run_bytes< b::only< K >, b::lim< N >::template act, Ctl >( s );
+   const bres g = run_bytes< b::only< K >, b::lim< N >::template act, Ctl, Eol >( s );
    if( start > 0 && s.size() > start + N ) {
       R.nontrivial( vf::mix( vf::mix( vf::fnv( kind ), vf::fnv( s ) ), N ) );
    }
@@ -659,6 +672,28 @@ static void bytes_all_kinds( const std::string& s )
 #undef KIND
 }
 
+template< std::size_t N >
+static void bytes_split_units( const std::string& s )
+{
+   check_bytes_case< b::k_utf8, N >( "plus<utf8::range>", s );
+   check_bytes_case< b::k_utf8_one, N >( "seq<opt<a>,utf8::one<U+20AC>>", s );
+   check_bytes_case< b::k_eol, N >( "seq<star<a>,eol>/lf_crlf", s );
+   check_bytes_case< b::k_eol, N, p::normal, p::eol::cr_crlf >( "seq<star<a>,eol>/cr_crlf", s );
+   check_bytes_case< b::k_eol, N, p::normal, p::eol::crlf >( "seq<star<a>,eol>/crlf", s );
+   check_bytes_case< b::k_until_eolf, N >( "until<eolf>/lf_crlf", s );
+   check_bytes_case< b::k_until_eolf, N, p::normal, p::eol::cr_crlf >( "until<eolf>/cr_crlf", s );
+}
+
+// units that a byte limit can split (kept apart from bytes_input: another alphabet)
+static void bytes_input_units( const std::string& s )
+{
+   bytes_split_units< 0 >( s );
+   bytes_split_units< 1 >( s );
+   bytes_split_units< 2 >( s );
+   bytes_split_units< 3 >( s );
+   bytes_split_units< 5 >( s );
+}
+
 static void bytes_input( const std::string& s )
 {
    bytes_all_kinds< 0 >( s );
@@ -676,6 +711,7 @@ int main( int argc, char** argv )
       const std::string js = vf::read_file( A.kase );
       if( vf::jget( js, "part" ) == "bytes" ) {
          bytes_input( vf::unhex( vf::jget( js, "hex" ) ) );
+         bytes_input_units( vf::unhex( vf::jget( js, "hex" ) ) );
       }
       else {
          depth_for_limit< 1 >();
@@ -724,6 +760,35 @@ int main( int argc, char** argv )
                   if( R.want_sample() && len == L && ( vf::fnv( s ) % 997 ) == 0 ) {
                      R.sample( vf::jobj().str( "part", "bytes" ).str( "input", "###" + s ).str( "checked", "8 guarded rule kinds x limits 0,1,2,3,5 x offsets 0..6; limit_bytes and check_bytes" ).done() );
                   }
+               }
+            }
+            int k = len - 1;
+            while( k >= 0 && ++idx[ std::size_t( k ) ] == int( al.size() ) ) {
+               idx[ std::size_t( k ) ] = 0;
+               --k;
+            }
+            if( k < 0 ) {
+               break;
+            }
+         }
+      }
+   }
+   // units: all strings up to length 5 (thorough 6) over { a, E2, 82, AC, CR, LF } at offsets 0..3
+   {
+      const std::string al( "a\xe2\x82\xac\r\n", 6 );
+      const int L = A.thorough() ? 6 : 5;
+      std::vector< int > idx;
+      std::uint64_t counter = 0;
+      for( int len = 0; len <= L; ++len ) {
+         idx.assign( std::size_t( len ), 0 );
+         for( ;; ) {
+            if( counter++ % ns == sh ) {
+               std::string s;
+               for( int i : idx ) {
+                  s += al[ std::size_t( i ) ];
+               }
+               for( int off = 0; off <= 3; ++off ) {
+                  bytes_input_units( std::string( std::size_t( off ), '#' ) + s );
                }
             }
             int k = len - 1;
